@@ -39,8 +39,16 @@ def cases(tier, seed):
     kinds = list(WEIGHTS)
     w = [WEIGHTS[k] for k in kinds]
     out = []
+    for n in gen.corpus():
+        for rep in range(6):
+            out.append({"net": n, "cls": n["cls"], "mode": "history", "history": [["succ", rng.randrange(256)] for _ in range(rng.randint(8, 24))], "rs": rng.randrange(1 << 30)})
     for n in nets:
-        out.append({"net": n, "cls": n["cls"], "mode": "history", "history": history.gen_history(rng, kinds, rng.randint(3, 10), w), "rs": rng.randrange(1 << 30)})
+        if rng.random() < 0.4:
+            # node-by-node expansion in a random order (depth has to be raised through later, longer paths)
+            h = [["succ", rng.randrange(256)] for _ in range(rng.randint(6, 24))]
+        else:
+            h = history.gen_history(rng, kinds, rng.randint(3, 10), w)
+        out.append({"net": n, "cls": n["cls"], "mode": "history", "history": h, "rs": rng.randrange(1 << 30)})
     for f in gen.models_up_to(10 if tier == "quick" else 20):
         for rep in range(2):
             out.append({"net": gen.model_net(f), "cls": "model", "mode": "history", "history": history.gen_history(rng, ["bfs", "dfs", "succ", "min"], rng.randint(4, 10)), "rs": rng.randrange(1 << 30), "big": True, "deadline": 60})
